@@ -59,7 +59,7 @@ def cases(ctx):
         yield ('rand0-extreme',)
         yield ('varying', [7, 3, 5, 1, 12])
         yield ('varying', [2, 9, 4])
-    n = ctx.scale(300, 4000)
+    n = ctx.scale(1000, 6000)
     for i in range(n):
         r = rnd.random()
         if i % 25 == 0:
